@@ -22,6 +22,9 @@ import Restful.Lemmas.TieImpCurlyTok
 import Restful.Lemmas.TieImpPath
 import Restful.Lemmas.TieImpMedia
 import Restful.Lemmas.TieImpTemplate
+import Restful.Lemmas.TieImpDetect
+import Restful.Lemmas.TieImpCurlySel
+import Restful.Lemmas.TieImpJsrSel
 namespace Restful
 namespace Props
 variable (E : ReEnv)
@@ -433,3 +436,7 @@ end Restful
 -- also: Restful.TieImp.T5.matches_accept
 -- also: Restful.TieImp.T5.matches_content_type
 -- also: Restful.TieImp.template_to_regex
+-- also: Restful.TieImp.detect_route
+-- also: Restful.TieImp.select_routes
+-- also: Restful.TieImp.jsr_select_routes
+-- also: Restful.TieImp.jsr_detect_dispatcher
